@@ -892,6 +892,35 @@ def p_groups(ctx):
         b.align()
         kind = A.packet if rng.random() < 0.7 else A.struct
         ctx.decls.append(kind(ctx.uid("P"), b.fields))
+    # a "marker" group used several times in one declaration: every field of it is constrained at each
+    # use (so the uses leave no named field behind and do not clash), with different values per use; and
+    # two different groups that each constrain a field of the same name
+    mf = [("mk_a", rng.choice([4, 8])), ("mk_b", None)]
+    wa = mf[0][1]
+    eid, ew = some_enum(ctx, maxw=16)
+    while not named_tags(next(d for d in ctx.decls if d.get("id") == eid)):
+        eid, ew = gen_enum(ctx, width=8, shape={"open": False, "ranges": False, "complete": False})
+    nt = named_tags(next(d for d in ctx.decls if d.get("id") == eid))
+    pad = (8 - (wa + ew) % 8) % 8
+    mfields = [A.scalar("mk_a", wa), A.typedef("mk_b", eid)] + ([A.reserved(pad)] if pad else [])
+    mg = ctx.uid("G")
+    ctx.decls.append(A.group(mg, mfields))
+    other = ctx.uid("G")
+    ctx.decls.append(A.group(other, [A.scalar("mk_a", 8), A.scalar(ctx.fid(), 8)]))
+    for _ in range(2):
+        b = Body(ctx)
+        b.maybe_noise(0.4)
+        b.align()
+        for u in range(rng.randint(2, 3)):
+            cons = [A.constraint("mk_a", value=rng.randint(0, (1 << wa) - 1)),
+                    A.constraint("mk_b", tag_id=rng.choice(nt)["id"])]
+            b.fields.append(A.group_f(mg, cons))
+            if rng.random() < 0.5:
+                b.random_bits(1)
+                b.align()
+        if rng.random() < 0.5:
+            b.fields.append(A.group_f(other, [A.constraint("mk_a", value=rng.randint(0, 255))]))
+        ctx.decls.append(A.packet(ctx.uid("P"), b.fields))
     ctx.features.add("groups")
 
 
